@@ -57,14 +57,15 @@ end Params
 
 /-! ### KeysState / OneRttKeysState -/
 namespace Keys
+variable (r : Bool)
 
 def Inv (s : State) (l : List (Sleeper Op)) : Prop :=
   ∀ x ∈ l, x.op = .poll x.t x.w ∧ x.t = 0 ∧ s = .pending (some x.w)
 
-theorem pres (s : State) (l : List (Sleeper Op)) (op : Op) (hok : SingleTask proto op) (h : Inv s l) :
-    Inv (step s op).1 (nextSlp proto l op (step s op).2) := by
+theorem pres (s : State) (l : List (Sleeper Op)) (op : Op) (hok : SingleTask (proto r) op) (h : Inv s l) :
+    Inv (step r s op).1 (nextSlp (proto r) l op (step r s op).2) := by
   intro x hx
-  obtain ⟨hw, hx⟩ := mem_nextSlp (P := proto) hx
+  obtain ⟨hw, hx⟩ := mem_nextSlp (P := proto r) hx
   rcases hx with ⟨hxl, hp, hd⟩ | ⟨t, w, hp, hr, rfl⟩
   · obtain ⟨h1, h2, h3⟩ := h x hxl
     cases op with
@@ -91,21 +92,21 @@ theorem pres (s : State) (l : List (Sleeper Op)) (op : Op) (hok : SingleTask pro
     | _ => simp [proto] at hp
 
 theorem safe (s : State) (l : List (Sleeper Op)) (x : Sleeper Op) (h : Inv s l) (hx : x ∈ l) :
-    (step s x.op).2.res = .pending := by
+    (step r s x.op).2.res = .pending := by
   obtain ⟨h1, _, h3⟩ := h x hx
   rw [h1, h3]; simp [step]
 
 theorem closeWakes (s : State) (l : List (Sleeper Op)) (x : Sleeper Op) (h : Inv s l) (hx : x ∈ l) :
-    x.w ∈ (step s .invalid).2.wakes := by
+    x.w ∈ (step r s .invalid).2.wakes := by
   obtain ⟨_, _, h3⟩ := h x hx
   simp [step, h3, takeWake]
 
-def sound : CloseSound proto (SingleTask proto) where
+def sound : CloseSound (proto r) (SingleTask (proto r)) where
   Inv := Inv
   init := by intro x hx; cases hx
-  pres := pres
-  safe := safe
-  closeWakes := closeWakes
+  pres := pres r
+  safe := safe r
+  closeWakes := closeWakes r
 
 end Keys
 
